@@ -42,6 +42,18 @@ class ParallelExec(E.Exec):
         self.outf.write(json.dumps(rec) + "\n")
 
     def run_parallel(self, fname, setup):
+        try:
+            return self._run_parallel(fname, setup)
+        except BaseException:
+            if self.is_child:
+                # a forked worker must never run the parent's exit handlers (they remove the scratch directory)
+                import traceback
+                traceback.print_exc()
+                sys.stderr.flush()
+                os._exit(4)
+            raise
+
+    def _run_parallel(self, fname, setup):
         st = E.State()
         self.root = st
         fn = self.mod.funcs[fname]
